@@ -89,7 +89,7 @@ func protoCfg(net *chainx.Net, interval, mtb int, syncing bool) config.Blockchai
 }
 
 // buildSource makes the source chain: height blocks with storage-changing transactions.
-func buildSource(r *prng.R, tb *chainx.TB, interval, mtb, height int, o *hx.Out) *source {
+func buildSource(r *prng.R, tb *chainx.TB, interval, mtb, height int, plain bool, o *hx.Out) *source {
 	net := chainx.NewNet(r, 1, 1, 3)
 	node, err := chainx.StartNode(protoCfg(net, interval, mtb, false), chainx.NewBackend(chainx.Memory))
 	if err != nil {
@@ -121,7 +121,11 @@ func buildSource(r *prng.R, tb *chainx.TB, interval, mtb, height int, o *hx.Out)
 			n := r.Intn(4)
 			for i := 0; i < n; i++ {
 				u := users[r.Intn(len(users))]
-				switch r.Intn(9) {
+				kind := r.Intn(9)
+				if plain && kind >= 2 && kind <= 5 {
+					kind = 8 // no deliberately equal values / sub-tries
+				}
+				switch kind {
 				case 0:
 					v := users[r.Intn(len(users))]
 					txs = append(txs, s.tx(u, callScript(gas, "transfer", u.ScriptHash(), v.ScriptHash(), int64(r.Range(1, 1000)), nil)))
@@ -219,6 +223,7 @@ type kase struct {
 
 func (c *kase) fail(key, format string, a ...any) {
 	c.failed = true
+	c.o.Sample(fmt.Sprintf("[%s] P=%d nodes=%d: %s", key, c.P, len(c.hashes), strings.Join(c.trace, " ")))
 	c.o.Fail(key, c.k, "%s; steps: %s", fmt.Sprintf(format, a...), strings.Join(c.trace, " "))
 }
 
@@ -298,7 +303,21 @@ func runCase(k int, f *hx.Flags, o *hx.Out) {
 	mtb := r.Range(2, 6)
 	height := 2*interval + r.Range(2, 14)
 	c := &kase{k: k, o: o, r: r}
-	if err := chainx.Try(func() { c.src = buildSource(r, tb, interval, mtb, height, o) }); err != nil {
+	plain := r.Chance(1, 3)
+	restartsInMPT := r.Chance(1, 2)
+	restartEvery := 6
+	if k < 3 {
+		// corpus: the repro of the fixed restart panic (0dd24d5): equal values under sibling keys / equal
+		// sub-tries, the module re-created from the DB after every batch
+		plain, restartsInMPT, restartEvery = false, true, 1
+		o.Count("corpus")
+	}
+	if plain {
+		o.Count("profile:plain-values")
+	} else {
+		o.Count("profile:equal-values")
+	}
+	if err := chainx.Try(func() { c.src = buildSource(r, tb, interval, mtb, height, plain, o) }); err != nil {
 		o.Line("build-failed", "build-failed")
 		o.Fail("harness-source-build", k, "%v", err)
 		return
@@ -368,11 +387,12 @@ func runCase(k int, f *hx.Flags, o *hx.Out) {
 				ks = append(ks, kid{c.id[ch], p})
 			}
 		}
+		// traversal order of Billet.traverse: the value child (no nibble) first, then by nibble
 		sort.Slice(ks, func(a, b int) bool {
-			if ks[a].id != ks[b].id {
-				return ks[a].id < ks[b].id
+			if c := bytes.Compare(ks[a].path, ks[b].path); c != 0 {
+				return c < 0
 			}
-			return bytes.Compare(ks[a].path, ks[b].path) < 0
+			return ks[a].id < ks[b].id
 		})
 		for _, kd := range ks {
 			parts = append(parts, fmt.Sprintf("%d:%s", kd.id, hx.Hex(kd.path)))
@@ -496,6 +516,18 @@ func runCase(k int, f *hx.Flags, o *hx.Out) {
 		var batch [][]byte
 		var desc []string
 		bad := false
+		if len(need) == 0 {
+			// the pool is empty but the stage did not change (the batch that emptied it ended with an error):
+			// the module asks for nothing; any further call completes the stage
+			o.Count("mpt:empty-pool-but-still-needs-data")
+			res, err := safeErr(func() error { return c.mod.AddMPTNodes(nil) })
+			c.line("deliver", res)
+			if err != nil {
+				c.fail("valid-data-error", "AddMPTNodes(empty) with an empty pool: %v", err)
+				return
+			}
+			continue
+		}
 		allRequestedValid := true
 		nItems := c.r.Range(1, 6)
 		for i := 0; i < nItems; i++ {
@@ -548,7 +580,7 @@ func runCase(k int, f *hx.Flags, o *hx.Out) {
 			c.fail("valid-data-error", "AddMPTNodes(%s): %v", strings.Join(desc, " "), err)
 			return
 		}
-		if c.mod.NeedStorageData() && c.r.Chance(1, 6) {
+		if c.mod.NeedStorageData() && restartsInMPT && c.r.Chance(1, restartEvery) {
 			if !reinit("mpt") {
 				return
 			}
@@ -633,7 +665,7 @@ func runCase(k int, f *hx.Flags, o *hx.Out) {
 	// lockstep after the sync point
 	if c.r.Chance(1, 3) {
 		if err := c.restartNode(); err != nil {
-			c.fail("valid-data-error", "restart after the jump: %v", err)
+			c.fail("restart-after-jump", "node restart after the completed state jump failed: %v (genesis hash %s, chain height %d)", err, src.GetHeaderHash(0).StringLE(), top)
 			return
 		}
 		sb = c.sync.BC
@@ -661,6 +693,7 @@ func runCase(k int, f *hx.Flags, o *hx.Out) {
 	}
 	c.o.Line("final", "synced")
 	o.Count("case:synced")
+	o.Sample(fmt.Sprintf("P=%d top=%d nodes=%d: %s", c.P, top, len(c.hashes), strings.Join(c.trace, " ")))
 }
 
 func main() {
